@@ -6,7 +6,7 @@ Chains == {a \o c : a \in Adapt2, c \in ConsSet}
 DslDescs == {DslDesc(ms, 0, 0) : ms \in Chains}
               \cup UNION {{DslDesc(ms, q, 0) : q \in {p \in 1..Len(ms) : ms[p] \in ArglessMethods}} : ms \in Chains}
               \cup UNION {{DslDesc(ms, 0, q) : q \in 1..Len(ms)} : ms \in {x \in Chains : Len(x) <= 2}}
-PmDescs == {PmDesc(f, p, d) : f \in PmForms, p \in {"literal", "ident", "expr"}, d \in BOOLEAN}
+PmDescs == {PmDesc(f, p, d) : f \in PmForms, p \in LiteralPats \cup NonLiteralPats, d \in BOOLEAN}
 VARIABLE x
 Init == x = 0
 Next == UNCHANGED x
